@@ -106,3 +106,23 @@ Proof.
   split; [vm_compute; reflexivity|]. split; [vm_compute; reflexivity|].
   eexists. split; [vm_compute; reflexivity|]. vm_compute. reflexivity.
 Qed.
+
+(* Known class: a public identifier written like a temporary one ("!A5") *)
+Definition Known_C05_reserved_id (s : dstore) : bool := has_reserved_id s.
+
+Definition witness_reserved : dstore :=
+  mkdstore None [Some (mkdres [114%N; 48%N] [97%N] None)] []
+    [Some (mkdann (Some [33%N; 65%N; 53%N]) [] 0 [DRes 0]);      (* "!A5" *)
+     Some (mkdann None [] 0 [DAnn 0])].                            (* written "!A1" *)
+
+Lemma Known_C05_reserved_id_witness :
+  Known_C05_reserved_id witness_reserved = true
+  /\ exists d, encode witness_reserved = Some d /\ decode d = None.
+Proof. split; [vm_compute; reflexivity|]. eexists. split; [vm_compute; reflexivity|]. vm_compute. reflexivity. Qed.
+
+(* without sub-stores the general writer and loader (the ones the correspondence runs) are those of the theorem *)
+Theorem C05_no_substores_encode : forall s, encode_o s no_owners = encode s.
+Proof. exact encode_o_no_substores. Qed.
+Theorem C05_no_substores_decode : forall d b, parse_bstore (fst d) = Some b -> b_include b = [] ->
+  decode_o d = option_map (fun s => (s, own_new no_owners s None)) (decode d).
+Proof. exact decode_o_no_substores. Qed.
